@@ -63,3 +63,329 @@ Proof.
   - apply Z.ltb_lt in E. apply Z.ltb_ge. change (2 ^ 64) with 18446744073709551616. lia.
   - destruct H as [H|H]; [discriminate|]. apply Z.leb_le in H. apply Z.ltb_ge. lia.
 Qed.
+
+(** ---- lookup algebra ---- *)
+Lemma lookup_add_id : forall s sig id r,
+  lookup s (add_id sig id r) = if s =? sig then option_map (fun ids => ids ++ [id]) (lookup sig r) else lookup s r.
+Proof.
+  intros s sig id r. unfold lookup, add_id. induction r as [|[a ids] r IH]; cbn [map find fst snd].
+  - destruct (s =? sig); reflexivity.
+  - destruct (a =? sig) eqn:Ea; cbn [fst snd].
+    + apply Z.eqb_eq in Ea. subst a. destruct (s =? sig) eqn:Es.
+      * apply Z.eqb_eq in Es. subst s. rewrite Z.eqb_refl. reflexivity.
+      * rewrite Z.eqb_sym, Es. rewrite IH. reflexivity.
+    + destruct (a =? s) eqn:Eas.
+      * apply Z.eqb_eq in Eas. subst a. rewrite Ea. reflexivity.
+      * rewrite IH. destruct (s =? sig) eqn:Es; [|reflexivity].
+        apply Z.eqb_eq in Es. subst s. reflexivity.
+Qed.
+
+Lemma lookup_app : forall s sig ids r,
+  lookup s (r ++ [(sig, ids)]) =
+  match lookup s r with Some x => Some x | None => if sig =? s then Some ids else None end.
+Proof.
+  intros s sig ids r. unfold lookup. induction r as [|[a l] r IH]; cbn [app find fst snd].
+  - destruct (sig =? s); reflexivity.
+  - destruct (a =? s); [reflexivity|exact IH].
+Qed.
+
+Lemma fresh_below : forall (n : N) ids, (forall id, In id ids -> (id < n)%N) -> existsb (N.eqb n) ids = false.
+Proof.
+  intros n ids H. destruct (existsb (N.eqb n) ids) eqn:E; [|reflexivity].
+  apply existsb_exists in E. destruct E as [x [Hin Hx]]. apply N.eqb_eq in Hx. subst x.
+  specialize (H _ Hin). lia.
+Qed.
+
+Lemma not_in_inst_forbidden : forall o st s, wf o st -> is_forbidden s = true -> in_inst s (inst st) = false.
+Proof.
+  intros o st s W F. destruct (in_inst s (inst st)) eqn:E; [|reflexivity].
+  apply in_inst_In in E. destruct (wf_inst _ _ W _ E) as [H _]. congruence.
+Qed.
+
+Lemma not_in_inst_out_of_table : forall o st s, wf o st -> out_of_table s = true -> in_inst s (inst st) = false.
+Proof.
+  intros o st s W F. destruct (in_inst s (inst st)) eqn:E; [|reflexivity].
+  apply in_inst_In in E. destruct (wf_inst _ _ W _ E) as [_ [_ H]]. congruence.
+Qed.
+
+Lemma not_in_inst_unaccepted : forall o st s, wf o st -> accepts o s = false -> in_inst s (inst st) = false /\ lookup s (reg st) = None.
+Proof.
+  intros o st s W A. assert (L : lookup s (reg st) = None).
+  { destruct (lookup s (reg st)) eqn:E; [|reflexivity]. rewrite (wf_slots_accepted _ _ W _ _ E) in A. discriminate. }
+  split; [|exact L]. destruct (in_inst s (inst st)) eqn:E; [|reflexivity].
+  apply in_inst_In in E. destruct (wf_inst _ _ W _ E) as [_ [H _]]. congruence.
+Qed.
+
+(** ---- the refusal clauses, for every checked entry point at once ---- *)
+Ltac each_checked Hf := simpl in Hf; repeat (destruct Hf as [<-|Hf]); try contradiction.
+Ltac pick_fd k Hk := destruct k; try (exfalso; apply Hk; reflexivity).
+Ltac refused_tac W :=
+  unfold refused, same_core, fallback_story, fallback_inert, r_out, r_state, r_released, r_kept, r_leaked, all_params;
+  cbn [fst snd disp_of reg next_id fallback inst params map];
+  repeat split; auto using incl_refl, incl_nil_l; try (apply (wf_inert _ _ W)).
+
+Lemma checked_forbidden : forall o k f sig st,
+  In f checked_eps -> k <> FdBad -> wf o st -> (f = FSignalsNew -> inst st = []) ->
+  is_forbidden sig = true ->
+  r_out (entry o k f sig st) = Panic PForbidden /\ refused o f sig st (entry o k f sig st).
+Proof.
+  intros o k f sig st Hf Hk W Hnew HF.
+  pose proof (forb_known _ HF) as HK. destruct (forb_in_table _ HF) as [HT [HN _]].
+  pose proof (not_in_inst_forbidden _ _ _ W HF) as HI.
+  pick_fd k Hk; each_checked Hf; ev;
+    repeat (progress (rewrite ?HK, ?HT, ?HN, ?HF, ?HI, ?in_inst_nil); ev);
+    refused_tac W; try (symmetry; apply Hnew; reflexivity).
+Qed.
+
+Lemma checked_out_of_table : forall o k f sig st,
+  In f checked_eps -> iterator_ep f = true -> wf o st -> (f = FSignalsNew -> inst st = []) ->
+  c_int sig -> out_of_table sig = true ->
+  r_out (entry o k f sig st) = Panic PIndex /\ refused o f sig st (entry o k f sig st).
+Proof.
+  intros o k f sig st Hf Hit W Hnew HC HO.
+  pose proof (out_of_table_index _ HC HO) as HT.
+  each_checked Hf; try discriminate Hit; ev;
+    repeat (progress (rewrite ?HT, ?in_inst_nil); ev);
+    refused_tac W; try (symmetry; apply Hnew; reflexivity).
+Qed.
+
+Lemma cond_default_unknown : forall o k sig st,
+  wf o st -> known sig = false ->
+  r_out (entry o k FFlagCondDefault sig st) = Err (EPrecheck EINVAL) /\
+  r_state (entry o k FFlagCondDefault sig st) = st /\
+  refused o FFlagCondDefault sig st (entry o k FFlagCondDefault sig st).
+Proof.
+  intros o k sig st W HK. ev. rewrite HK. ev. refused_tac W.
+Qed.
+
+Lemma checked_rejected : forall o k f sig st,
+  In f checked_eps -> k <> FdBad -> wf o st -> (f = FSignalsNew -> inst st = []) ->
+  is_forbidden sig = false ->
+  (iterator_ep f = true -> out_of_table sig = false) ->
+  (f = FFlagCondDefault -> known sig = true) ->
+  accepts o sig = false ->
+  r_out (entry o k f sig st) = Err EOs /\ refused o f sig st (entry o k f sig st).
+Proof.
+  intros o k f sig st Hf Hk W Hnew HF Hit Hcd HA.
+  destruct (not_in_inst_unaccepted _ _ _ W HA) as [HI HL].
+  assert (HTN : iterator_ep f = true -> (as_usize sig <? MAX_SIGNUM) = true /\ (sig <? 0) = false)
+    by (intros E; apply table_cases; auto).
+  unfold accepts in HA.
+  pick_fd k Hk; each_checked Hf;
+    try (destruct (HTN eq_refl) as [HT HN]); try (pose proof (Hcd eq_refl) as HK);
+    destruct (os_query o sig) eqn:HQ; cbn [andb] in HA; ev;
+    repeat (progress (rewrite ?HK, ?HT, ?HN, ?HF, ?HI, ?HL, ?HQ, ?HA, ?in_inst_nil); ev);
+    refused_tac W; try (symmetry; apply Hnew; reflexivity); auto.
+Qed.
+
+Lemma set_disp_same : forall f s d, set_disp f s d s = d.
+Proof. intros. unfold set_disp. now rewrite Z.eqb_refl. Qed.
+Lemma set_disp_other : forall f s d x, x <> s -> set_disp f s d x = f x.
+Proof. intros. unfold set_disp. destruct (x =? s) eqn:E; [apply Z.eqb_eq in E; contradiction|reflexivity]. Qed.
+
+Ltac registered_tac :=
+  unfold registered, is_ok, r_out, r_state, r_released, r_kept, r_leaked;
+  cbn [fst snd disp_of reg next_id fallback inst];
+  repeat split; auto using set_disp_same, set_disp_other;
+  try (intros s0 Hs0; rewrite ?lookup_add_id, ?lookup_app);
+  try (rewrite ?lookup_add_id, ?lookup_app, ?Z.eqb_refl).
+
+Lemma checked_accepted : forall o k f sig st,
+  In f checked_eps -> k <> FdBad -> wf o st -> (f = FSignalsNew -> inst st = []) ->
+  is_forbidden sig = false ->
+  (iterator_ep f = true -> out_of_table sig = false) ->
+  (f = FFlagCondDefault -> known sig = true) ->
+  accepts o sig = true ->
+  registered f sig st (entry o k f sig st).
+Proof.
+  intros o k f sig st Hf Hk W Hnew HF Hit Hcd HA.
+  assert (HTN : iterator_ep f = true -> (as_usize sig <? MAX_SIGNUM) = true /\ (sig <? 0) = false)
+    by (intros E; apply table_cases; auto).
+  unfold accepts in HA. apply andb_true_iff in HA. destruct HA as [HQ HS].
+  destruct (lookup sig (reg st)) as [ids|] eqn:HL.
+  - pose proof (fresh_below _ _ (fun id => wf_ids_below _ _ W _ _ id HL)) as HFr.
+    destruct (in_inst sig (inst st)) eqn:HI;
+    pick_fd k Hk; each_checked Hf;
+      try (destruct (HTN eq_refl) as [HT HN]); try (pose proof (Hcd eq_refl) as HK); ev;
+      repeat (progress (rewrite ?HK, ?HT, ?HN, ?HF, ?HI, ?HL, ?HFr, ?HQ, ?HS, ?in_inst_nil); ev);
+      registered_tac.
+    all: try (rewrite HL; discriminate).
+    all: try (right; rewrite HL; discriminate).
+    all: try (destruct (s0 =? sig) eqn:E; [apply Z.eqb_eq in E; contradiction|reflexivity]).
+    all: try (cbn; discriminate).
+  - destruct (in_inst sig (inst st)) eqn:HI.
+    { apply in_inst_In in HI. destruct (wf_inst _ _ W _ HI) as [_ [H _]]. congruence. }
+    pick_fd k Hk; each_checked Hf;
+      try (destruct (HTN eq_refl) as [HT HN]); try (pose proof (Hcd eq_refl) as HK); ev;
+      repeat (progress (rewrite ?HK, ?HT, ?HN, ?HF, ?HI, ?HL, ?HQ, ?HS, ?in_inst_nil); ev);
+      registered_tac.
+    all: try (rewrite HL; discriminate).
+    all: try (destruct (lookup s0 (reg st)); [reflexivity|];
+              destruct (sig =? s0) eqn:E; [apply Z.eqb_eq in E; congruence|reflexivity]).
+Qed.
+
+Lemma checked_ok_id : forall o k f sig st,
+  In f checked_eps -> iterator_ep f = false -> k <> FdBad -> wf o st ->
+  is_forbidden sig = false -> (f = FFlagCondDefault -> known sig = true) -> accepts o sig = true ->
+  r_out (entry o k f sig st) = OkId (next_id st) /\ r_kept (entry o k f sig st) = all_params f /\
+  next_id (r_state (entry o k f sig st)) = id_succ (next_id st).
+Proof.
+  intros o k f sig st Hf Hit Hk W HF Hcd HA.
+  unfold accepts in HA. apply andb_true_iff in HA. destruct HA as [HQ HS].
+  destruct (lookup sig (reg st)) as [ids|] eqn:HL;
+    [pose proof (fresh_below _ _ (fun id => wf_ids_below _ _ W _ _ id HL)) as HFr|];
+    pick_fd k Hk; each_checked Hf; try discriminate Hit;
+      try (pose proof (Hcd eq_refl) as HK); ev;
+      repeat (progress (rewrite ?HK, ?HF, ?HL, ?HFr, ?HQ, ?HS); ev);
+      repeat split; reflexivity.
+Qed.
+
+(** ---- the unchecked entry points: the OS verdict passes through, also for forbidden numbers ---- *)
+Lemma unchecked_accepted : forall o k f sig st,
+  In f unchecked_eps -> wf o st -> accepts o sig = true ->
+  r_out (entry o k f sig st) = OkId (next_id st) /\ registered f sig st (entry o k f sig st).
+Proof.
+  intros o k f sig st Hf W HA.
+  unfold accepts in HA. apply andb_true_iff in HA. destruct HA as [HQ HS].
+  destruct (lookup sig (reg st)) as [ids|] eqn:HL;
+    [pose proof (fresh_below _ _ (fun id => wf_ids_below _ _ W _ _ id HL)) as HFr|];
+    each_checked Hf; ev; repeat (progress (rewrite ?HL, ?HFr, ?HQ, ?HS); ev);
+    (split; [reflexivity|]); registered_tac.
+  all: try (right; rewrite HL; discriminate).
+  all: try (rewrite HL; discriminate).
+  all: try (destruct (s0 =? sig) eqn:E; [apply Z.eqb_eq in E; contradiction|reflexivity]).
+  all: try (destruct (lookup s0 (reg st)); [reflexivity|];
+            destruct (sig =? s0) eqn:E; [apply Z.eqb_eq in E; congruence|reflexivity]).
+Qed.
+
+Lemma unchecked_rejected : forall o k f sig st,
+  In f unchecked_eps -> wf o st -> accepts o sig = false ->
+  let r := entry o k f sig st in
+  r_out r = Err EOs /\ same_core st (r_state r) /\
+  fallback (r_state r) = (if os_query o sig then Some sig else fallback st) /\
+  fallback_inert (r_state r) /\ r_released r = [] /\ r_kept r = [] /\ r_leaked r = [].
+Proof.
+  intros o k f sig st Hf W HA.
+  destruct (not_in_inst_unaccepted _ _ _ W HA) as [_ HL].
+  unfold accepts in HA.
+  each_checked Hf; destruct (os_query o sig) eqn:HQ; cbn [andb] in HA; ev;
+    repeat (progress (rewrite ?HL, ?HQ, ?HA); ev);
+    unfold same_core, fallback_inert, r_out, r_state, r_released, r_kept, r_leaked;
+    cbn [fst snd disp_of reg next_id fallback inst];
+    repeat split; auto; apply (wf_inert _ _ W).
+Qed.
+
+(** ---- the invariant: established by the initial state, preserved by every entry point ---- *)
+Lemma wf_init : forall o d, (forall s, d s <> Lib) -> wf o (init_state d).
+Proof.
+  intros o d H. constructor; cbn.
+  - intros s ids E. discriminate.
+  - intros s E. exfalso. exact (H s E).
+  - intros s ids id E. discriminate.
+  - intros s [].
+Qed.
+
+Lemma wf_ext : forall o st st',
+  disp_of st' = disp_of st -> reg st' = reg st -> next_id st' = next_id st -> inst st' = inst st ->
+  wf o st -> wf o st'.
+Proof.
+  intros o st st' Hd Hr Hn Hi W. constructor; unfold fallback_inert; rewrite ?Hd, ?Hr, ?Hn, ?Hi.
+  - apply (wf_slots_accepted _ _ W).
+  - apply (wf_inert _ _ W).
+  - apply (wf_ids_below _ _ W).
+  - apply (wf_inst _ _ W).
+Qed.
+
+Lemma id_succ_small : forall n, (n + 1 < 2 ^ 128)%N -> id_succ n = (n + 1)%N.
+Proof. intros n H. unfold id_succ, id_modulus. now apply N.mod_small. Qed.
+
+Definition inst_grows (sig : Z) (old new : list Z) : Prop :=
+  forall s, In s new -> In s old \/ (s = sig /\ is_forbidden sig = false /\ out_of_table sig = false).
+
+Lemma wf_occupied : forall o st sig ids fb I,
+  wf o st -> lookup sig (reg st) = Some ids -> (next_id st + 1 < 2 ^ 128)%N -> inst_grows sig (inst st) I ->
+  wf o {| disp_of := disp_of st; reg := add_id sig (next_id st) (reg st); next_id := id_succ (next_id st);
+          fallback := fb; inst := I |}.
+Proof.
+  intros o st sig ids fb I W HL Hn HI. rewrite (id_succ_small _ Hn).
+  constructor; unfold fallback_inert; cbn [disp_of reg next_id inst].
+  - intros s l. rewrite lookup_add_id. destruct (s =? sig) eqn:E.
+    + apply Z.eqb_eq in E. subst s. intros _. apply (wf_slots_accepted _ _ W _ _ HL).
+    + apply (wf_slots_accepted _ _ W).
+  - intros s Hs. rewrite lookup_add_id. destruct (s =? sig) eqn:E.
+    + rewrite HL. discriminate.
+    + apply (wf_inert _ _ W _ Hs).
+  - intros s l id. rewrite lookup_add_id. destruct (s =? sig) eqn:E.
+    + rewrite HL. cbn. intros E'. injection E' as <-. intros Hin. apply in_app_or in Hin.
+      destruct Hin as [Hin|[<-|[]]]; [|lia]. pose proof (wf_ids_below _ _ W _ _ _ HL Hin). lia.
+    + intros E' Hin. pose proof (wf_ids_below _ _ W _ _ _ E' Hin). lia.
+  - intros s Hs. rewrite lookup_add_id. destruct (HI s Hs) as [Hold|[-> [HF HT]]].
+    + destruct (wf_inst _ _ W _ Hold) as [A [B C]]. repeat split; auto.
+      destruct (s =? sig) eqn:E; [rewrite HL; discriminate|exact B].
+    + rewrite Z.eqb_refl, HL. repeat split; auto. discriminate.
+Qed.
+
+Lemma wf_vacant : forall o st sig fb I,
+  wf o st -> lookup sig (reg st) = None -> os_query o sig = true -> os_set o sig = true ->
+  (next_id st + 1 < 2 ^ 128)%N -> inst_grows sig (inst st) I ->
+  wf o {| disp_of := set_disp (disp_of st) sig Lib; reg := reg st ++ [(sig, [next_id st])];
+          next_id := id_succ (next_id st); fallback := fb; inst := I |}.
+Proof.
+  intros o st sig fb I W HL HQ HS Hn HI. rewrite (id_succ_small _ Hn).
+  constructor; unfold fallback_inert; cbn [disp_of reg next_id inst].
+  - intros s l. rewrite lookup_app. destruct (lookup s (reg st)) eqn:E.
+    + intros _. apply (wf_slots_accepted _ _ W _ _ E).
+    + destruct (sig =? s) eqn:E2; [|discriminate]. apply Z.eqb_eq in E2. subst s. intros _.
+      unfold accepts. now rewrite HQ, HS.
+  - intros s Hs. rewrite lookup_app. unfold set_disp in Hs. destruct (s =? sig) eqn:E.
+    + apply Z.eqb_eq in E. subst s. rewrite HL, Z.eqb_refl. discriminate.
+    + pose proof (wf_inert _ _ W _ Hs) as H. destruct (lookup s (reg st)); [discriminate|contradiction].
+  - intros s l id. rewrite lookup_app. destruct (lookup s (reg st)) eqn:E.
+    + intros E' Hin. injection E' as <-. pose proof (wf_ids_below _ _ W _ _ _ E Hin). lia.
+    + destruct (sig =? s); [|discriminate]. intros E'. injection E' as <-. intros [<-|[]]. lia.
+  - intros s Hs. rewrite lookup_app. destruct (HI s Hs) as [Hold|[-> [HF HT]]].
+    + destruct (wf_inst _ _ W _ Hold) as [A [B C]]. repeat split; auto.
+      destruct (lookup s (reg st)); [discriminate|contradiction].
+    + rewrite HL, Z.eqb_refl. repeat split; auto. discriminate.
+Qed.
+
+Lemma in_table_rev : forall s, (as_usize s <? MAX_SIGNUM) = true -> (s <? 0) = false -> out_of_table s = false.
+Proof.
+  intros s H1 H2. unfold out_of_table. rewrite H2. cbn. unfold as_usize in H1. rewrite H2 in H1.
+  apply Z.ltb_lt in H1. now apply Z.leb_gt.
+Qed.
+
+Ltac split_atom :=
+  match goal with
+  | |- context [is_forbidden ?s] => destruct (is_forbidden s) eqn:?
+  | |- context [known ?s] => destruct (known s) eqn:?
+  | |- context [as_usize ?s <? MAX_SIGNUM] => destruct (as_usize s <? MAX_SIGNUM) eqn:?
+  | |- context [?s <? 0] => destruct (s <? 0) eqn:?
+  | |- context [in_inst ?s ?l] => destruct (in_inst s l) eqn:?
+  | |- context [lookup ?s ?r] => destruct (lookup s r) eqn:?
+  | |- context [existsb (N.eqb ?n) ?l] => destruct (existsb (N.eqb n) l) eqn:?
+  | |- context [os_query ?o ?s] => destruct (os_query o s) eqn:?
+  | |- context [os_set ?o ?s] => destruct (os_set o s) eqn:?
+  end.
+
+Ltac grows_tac :=
+  let s := fresh "s" in let Hs := fresh "Hs" in
+  intros s Hs; cbn [app] in Hs;
+  first [ left; exact Hs
+        | apply in_app_or in Hs; destruct Hs as [Hs|[<-|[]]]; [left; exact Hs|right; repeat split; auto using in_table_rev]
+        | destruct Hs as [<-|[]]; right; repeat split; auto using in_table_rev ].
+
+Lemma wf_preserved : forall o k f sig st,
+  In f (checked_eps ++ unchecked_eps) -> wf o st -> (next_id st + 1 < 2 ^ 128)%N ->
+  (f = FSignalsNew -> inst st = []) ->
+  wf o (r_state (entry o k f sig st)).
+Proof.
+  intros o k f sig st Hf W Hn Hnew.
+  destruct k; each_checked Hf; ev; rewrite ?in_inst_nil; ev;
+    repeat (split_atom; ev; rewrite ?in_inst_nil; ev);
+    unfold r_state; cbn [fst snd];
+    first [ exact W
+          | apply (wf_ext o st); cbn [disp_of reg next_id inst]; auto; symmetry; apply Hnew; reflexivity
+          | eapply wf_occupied; eauto; grows_tac
+          | eapply wf_vacant; eauto; grows_tac ].
+Qed.
